@@ -74,6 +74,11 @@ RULE = ("(a) seeded random class specifications (harness/initgen.py option space
         "distinct = distinct case term; "
         "non-trivial = class with at least one field (a, b), at least two definitions (d, e)")
 EXTRA_TRUSTED = [
+    "harness/translate_c17.py: the fail-closed translator that regenerates Gen/C17_tie.v from the text of "
+    "_generate_unique_filename, _GENERATED_CODE_BUILTINS, _ClassBuilder._eval_snippets, attrs().wrap (snippet "
+    "order), _linecache_and_compile and _compile_and_eval; its primitives drop_last (x[:-1]), render (f'{int}'), "
+    "dict.update as list append with last-write-wins lookup, and the linecache tuple abstracted to (script, string "
+    "component) with len / splitlines equality as the oracles leqb / seqb",
     "dis.get_instructions (LOAD_GLOBAL / LOAD_NAME / co_varnames) is how the harness learns which names the "
     "real code objects read; identity of the objects found in function.__globals__ is how it learns their "
     "provenance",
@@ -92,6 +97,18 @@ ASSUMPTIONS = [
 ]
 
 _uid = itertools.count(1)
+
+
+def pre_build():
+    # Gen/C17_tie.v is regenerated from the current source text (theories/C17/Tie.v imports it)
+    from . import translate_c17
+    translate_c17.regenerate()
+
+
+def translated_tie():
+    from . import translate_c17
+    return translate_c17.regenerate(), "theories/C17/Tie.vo"
+
 
 # --------------------------------------------------------------------------------------
 # naming replica (tied to the Coq model by the hc_py_guard field of every CHerm case)
